@@ -11,6 +11,8 @@ use std::{env, fs, panic, process::ExitCode};
 use typst_syntax::{ast, parse, Source, SyntaxKind as K, SyntaxNode};
 use typstyle_core::{Config, Typstyle};
 
+mod grammar_gen;
+
 fn cfg(width: usize, tab: usize, reorder: bool) -> Config {
     let mut c = Config::new().with_width(width).with_tab_spaces(tab);
     c.reorder_import_items = reorder;
@@ -636,6 +638,137 @@ fn check_one(prop: &str, src: &str, width: usize, tab: usize, reorder: bool, max
     }
 }
 
+// ---------------------------------------------------------------------------------------------------------------------
+// FACTS: the parser facts the contracts assume (prelude/treefacts.rs, markupspec.rs, wspec.rs, grammar_gen.rs), checked on
+// every node of an error-free tree.  This validates ASSUMPTIONS; it never decides a property.
+fn has_nl(t: &str) -> bool {
+    t.chars().any(typst_syntax::is_newline)
+}
+
+fn check_facts(n: &SyntaxNode, parent: Option<&SyntaxNode>, in_raw: bool, is_root: bool, out: &mut Vec<String>) {
+    let k = n.kind();
+    let ch: Vec<&SyntaxNode> = n.children().collect();
+    let is_expr = |c: &SyntaxNode| c.cast::<ast::Expr>().is_some();
+    let trivia = |c: K| matches!(c, K::Space | K::Parbreak | K::LineComment | K::BlockComment | K::Hash);
+    // PF1 / PF7
+    for (i, c) in ch.iter().enumerate() {
+        if c.kind() == K::LineComment {
+            match ch.get(i + 1) {
+                Some(nx) => {
+                    let ok = if matches!(k, K::Markup | K::ListItem | K::EnumItem | K::TermItem) { matches!(nx.kind(), K::Space | K::Parbreak) && has_nl(nx.text()) } else { nx.kind() == K::Space && has_nl(nx.text()) };
+                    if !ok {
+                        out.push(format!("PF1: line comment in {k:?} followed by {:?} {:?}", nx.kind(), nx.text()));
+                    }
+                }
+                None => {
+                    if k != K::Markup {
+                        out.push(format!("PF1: {k:?} ends with a line comment"));
+                    } else if !is_root {
+                        out.push("PF7: a nested Markup ends with a line comment".to_string());
+                    }
+                }
+            }
+        }
+    }
+    // PF2 / PF8 / PF9
+    if ch.is_empty() {
+        let t = n.text().as_str();
+        match k {
+            K::LineComment => {
+                if !t.starts_with("//") || has_nl(t) {
+                    out.push(format!("PF2: line comment text {t:?}"));
+                }
+            }
+            K::BlockComment => {
+                if !t.starts_with("/*") {
+                    out.push(format!("PF2: block comment text {t:?}"));
+                }
+            }
+            _ => {
+                if t.starts_with("//") {
+                    if in_raw {
+                        out.push("PF2-raw: a raw text line starts with `//` (known exclusion: T over-approximates there)".to_string());
+                    } else {
+                        out.push(format!("PF2: {k:?} token starts with `//`: {t:?}"));
+                    }
+                }
+            }
+        }
+        if k == K::None && t != "none" || k == K::Auto && t != "auto" {
+            out.push(format!("PF2: literal keyword text {t:?}"));
+        }
+        if let Some(f) = grammar_gen::fixed_text(k) {
+            if t != f {
+                out.push(format!("PF9: {k:?} is spelled {t:?}, expected {f:?}"));
+            }
+        }
+        if grammar_gen::is_inner_kind(k) && !t.is_empty() {
+            out.push(format!("PF8: childless inner node {k:?} with text {t:?}"));
+        }
+    } else {
+        if !grammar_gen::is_inner_kind(k) {
+            out.push(format!("PF8: token kind {k:?} has children"));
+        }
+        if !n.text().is_empty() {
+            out.push(format!("PF8: inner node {k:?} has text of its own"));
+        }
+    }
+    // PF4
+    if k == K::MathDelimited && (ch.len() < 2 || ch.last().map(|c| c.kind()) == Some(K::Space)) {
+        out.push("PF4: MathDelimited without delimiters at both ends".to_string());
+    }
+    // PF6
+    for w in ch.windows(2) {
+        if matches!(w[0].kind(), K::Space | K::Parbreak) && matches!(w[1].kind(), K::Space | K::Parbreak) {
+            out.push(format!("PF6: adjacent whitespace tokens in {k:?}"));
+        }
+    }
+    for c in &ch {
+        if c.kind() == K::Parbreak {
+            let nl = c.text().chars().filter(|x| typst_syntax::is_newline(*x)).count() - c.text().matches("\r\n").count();
+            if nl < 2 {
+                out.push(format!("PF6: Parbreak with {nl} line breaks"));
+            }
+        }
+    }
+    // PF10
+    for c in &ch {
+        let ck = c.kind();
+        let ok = trivia(ck)
+            || (is_expr(c) && !grammar_gen::no_expr_parent(k))
+            || match grammar_gen::listed(k) {
+                Some(l) => l.contains(&ck),
+                None => true,
+            };
+        if !ok {
+            out.push(format!("PF10: {ck:?} below {k:?} is not in the grammar table"));
+        }
+    }
+    // PF11
+    if matches!(k, K::LoopBreak | K::LoopContinue) {
+        let words: Vec<&str> = ch.iter().filter(|c| !matches!(c.kind(), K::Space)).map(|c| c.text().as_str()).collect();
+        if words != [if k == K::LoopBreak { "break" } else { "continue" }] {
+            out.push(format!("PF11: {k:?} consists of {words:?}"));
+        }
+    }
+    // PF12
+    if k == K::FuncCall && !(ch.len() == 2 && is_expr(ch[0]) && ch[1].kind() == K::Args) {
+        out.push(format!("PF12: FuncCall with children {:?}", ch.iter().map(|c| c.kind()).collect::<Vec<_>>()));
+    }
+    // PF13
+    if matches!(k, K::Math | K::Markup) {
+        for c in &ch {
+            if !is_expr(c) && grammar_gen::is_inner_kind(c.kind()) {
+                out.push(format!("PF13: inner non-expression {:?} below {k:?}", c.kind()));
+            }
+        }
+    }
+    let _ = parent;
+    for c in ch {
+        check_facts(c, Some(n), in_raw || k == K::Raw, false, out);
+    }
+}
+
 fn main() -> ExitCode {
     let args: Vec<String> = env::args().skip(1).collect();
     if args.is_empty() {
@@ -643,6 +776,39 @@ fn main() -> ExitCode {
         return ExitCode::from(2);
     }
     let prop = args[0].clone();
+    if prop == "FACTS" {
+        let mut bad = 0usize;
+        let mut seen = std::collections::BTreeMap::<String, usize>::new();
+        for f in &args[1..] {
+            let Ok(src) = fs::read_to_string(f) else { continue };
+            // the facts are about error-free trees of inputs AND of outputs
+            let mut texts = vec![src.clone()];
+            if let Ok(o) = Typstyle::new(cfg(40, 2, false)).format_content(src.as_str()) {
+                texts.push(o);
+            }
+            for t in texts {
+                let root = parse(&t);
+                if root.erroneous() {
+                    continue;
+                }
+                let mut out = vec![];
+                check_facts(&root, None, false, true, &mut out);
+                for o in out {
+                    let key = o.split(':').next().unwrap_or("").to_string();
+                    if key != "PF2-raw" {
+                        if *seen.get(&o).unwrap_or(&0) == 0 {
+                            println!("{{\"fact\":{:?},\"file\":{:?}}}", o, f);
+                        }
+                        bad += 1;
+                    }
+                    *seen.entry(o).or_insert(0) += 1;
+                }
+            }
+        }
+        let raw = seen.iter().filter(|(k, _)| k.starts_with("PF2-raw")).map(|(_, v)| *v).sum::<usize>();
+        eprintln!("facts checked on {} files: {} violations, {} raw lines starting with `//` (known exclusion)", args.len() - 1, bad, raw);
+        return if bad > 0 { ExitCode::from(1) } else { ExitCode::SUCCESS };
+    }
     if prop == "FORMAT" {
         // vp-replay FORMAT <width> <tab> <reorder:0|1> <file>: the library's answer, for the CLI scenarios (C14-C16)
         let (w, t, r) = (args[1].parse().unwrap_or(80), args[2].parse().unwrap_or(2), args[3] == "1");
